@@ -9,7 +9,7 @@ from ..cfg import NORMAL, Node
 from ..core import Ctx
 from ..flow import ALL, find_path, names_in
 from ..model import AnalysisError, FunctionInfo, dotted, norm_text
-from .common import (owner_tops, edge_target, fold_str, hint_value, hint_write_nodes, hint_writers, kwarg, path_arg,
+from .common import (owner_tops, edge_target, fold_str, hint_value, hint_write_nodes, hint_writers, kwarg, path_arg, scenario_walk, facts_at,
                      reachable_from)
 
 EXPLANATION = (
@@ -35,6 +35,12 @@ def check(ctx: Ctx) -> None:
     from .c05 import r3 as c05_r3
     c05_r3(ctx, "C03.R4")
     r5(ctx)
+    from .c19 import kernel_lock_preferred
+    kernel_lock_preferred(ctx, "C03.R6")
+    from .c06 import marker_parse_tolerant
+    marker_parse_tolerant(ctx, "C03.R7")
+    from .c08 import pin_needs_hint
+    pin_needs_hint(ctx, "C03.R8")
 
 
 def r5(ctx: Ctx) -> None:
@@ -310,23 +316,40 @@ def r3(ctx: Ctx, rid: str) -> None:
     rc = ctx.fn("metadata_manager.MetadataManager._recover_version_from_files")
     g = ctx.cfg(rc)
     dom = ctx.dom(rc, NORMAL)
-    best_defs = [n for n in g.nodes if n.kind == "stmt" and isinstance(n.ast, ast.Assign)
-                 and any(isinstance(t, ast.Name) and t.id == "best" for t in n.ast.targets)
-                 and not (isinstance(n.ast.value, ast.Constant) and n.ast.value.value is None)]
-    match_br = [b for b in g.nodes if b.kind == "branch" and isinstance(b.ast, ast.Name)
-                and any("_METADATA_FILE_RE" in norm_text(g.nodes[d].ast) for d in ctx.rd(rc).reaching(b.id, b.ast.id)
-                        if g.nodes[d].ast is not None)]
-    ok = bool(best_defs) and bool(match_br)
-    for bd in best_defs:
-        good = False
-        for b in match_br:
-            t = edge_target(g, b, "true")
-            f_ = edge_target(g, b, "false")
-            if t is not None and bd.id in reachable_from(g, t, NORMAL, avoid=[n.id for n in g.nodes if n.kind == "loop"]) and b.id in dom[bd.id]:
-                good = True
-        ctx.ob(rid, rc, "recovery candidate is accepted only under a regex match", bd, good,
-               "`best` is only assigned a basename that matched _METADATA_FILE_RE")
-    par = [b for b in g.nodes if b.kind == "branch" and "parent" in b.text]
-    ctx.ob(rid, rc, "recovery considers files directly in metadata/ only", par[0] if par else None,
-           bool(par) and all(any(p.id in dom[bd.id] for p in par) for bd in best_defs),
-           "files in sub-directories (manifests, inflight) are never taken for metadata versions")
+    # (the candidate set is examined below by role: statements that read the regex's version group)
+    # scenario evaluation of one loop iteration: a listed entry in a SUB-directory of metadata/ whose basename would match
+    # the regex must never be accepted; an entry directly in metadata/ must be acceptable
+    rsl = ctx.slicer(rc)
+    lps = [l for l in g.nodes if l.kind == "loop" and isinstance(l.ast, ast.For) and isinstance(l.ast.target, ast.Name)
+           and any(isinstance(c, ast.Call) and (dotted(c.func) or "").endswith("list_files") for c in rsl.origins(l.ast.iter, l.id)["calls"])]
+    if not lps:
+        raise AnalysisError("listing loop vanished from _recover_version_from_files")
+    lp = lps[0]
+    mvars = {t.id for n in g.nodes if n.kind == "stmt" and isinstance(n.ast, ast.Assign) and "_METADATA_FILE_RE" in norm_text(n.ast.value)
+             for t in n.ast.targets if isinstance(t, ast.Name)}
+    accept = [n for n in g.nodes if n.ast is not None and n.kind in ("stmt", "call", "branch", "return")
+              and any(isinstance(x, ast.Call) and isinstance(x.func, ast.Attribute) and x.func.attr == "group"
+                      and isinstance(x.func.value, ast.Name) and x.func.value.id in mvars for x in ast.walk(n.ast))]
+    for a in accept:
+        matched = any(pol in ("true", "nonnull") and isinstance(e, ast.Name) and e.id in mvars for pol, e, _at in facts_at(ctx, rc, a))
+        ctx.ob(rid, rc, "recovery candidate is accepted only under a regex match", a, matched,
+               "a version is only read from a basename that matched _METADATA_FILE_RE")
+    if not accept:
+        raise AnalysisError("_recover_version_from_files no longer reads the version group of the metadata regex")
+    mpaths = {dotted(x) for x in ast.walk(rc.node) if isinstance(x, ast.Attribute) and x.attr == "metadata_path" and dotted(x)}
+    body = edge_target(g, lp, "true")
+    res = {}
+    sample = next((c for c in ("v3-0a1b2c3d.metadata.json", "v3.metadata.json", "v3-0a1b.metadata.json") if re.match(metadata_regex(ctx), c)), None)
+    if sample is None:
+        raise AnalysisError("no sample metadata file name matches the metadata regex")
+    for label, entry in (("root", "metadata/" + sample), ("sub-directory", "metadata/manifests/" + sample)):
+        env = {lp.ast.target.id: entry}  # type: ignore[union-attr]
+        env.update({p: "metadata" for p in mpaths})
+        reached, undec = scenario_walk(ctx, rc, [body] if body is not None else [], env, stop=[lp.id] + [a.id for a in accept])
+        res[label] = (any(a.id in reached for a in accept), undec)
+    ctx.ob(rid, rc, "recovery considers files directly in metadata/ only", lp,
+           bool(accept) and res["root"][0] and (res["sub-directory"][1] or not res["sub-directory"][0]),
+           f"scenario 'metadata/v3-*.metadata.json': candidate accepted = {res['root'][0]}; scenario "
+           f"'metadata/manifests/v3-*.metadata.json': candidate accepted = {res['sub-directory'][0]}"
+           + (" [guard not evaluable: undecided]" if res["sub-directory"][1] else "")
+           + " - files in sub-directories (manifests, inflight) are never taken for metadata versions")
